@@ -489,4 +489,58 @@ example :
       | .error _ => false) = true := by
   decide
 
+/-! ## The contiguous form composed with `get_features` (wave 2) -/
+
+/-- **contiguous_positions_on_view.**  For every unit-stride view satisfying C01's invariant and every feature as the db
+stores it (spans non-empty, ordered and pairwise DISJOINT, either strand): `get_features` builds the feature without
+exception and the contiguous form `get_slice(allow_gaps=True)` reads exactly `denoteContig` — every parent position from
+the FIRST to the LAST retained position of the feature (introns and clipped-away spans in between included), in reading
+order on the feature's strand; nothing when no position of the feature is retained. -/
+theorem contiguous_positions_on_view (v : View) (h : UnitView v) (hl : 0 < len v) (minus : Bool)
+    (spans : List (Int × Int)) (hsp : ∀ sp ∈ spans, 0 ≤ sp.1 ∧ sp.1 < sp.2)
+    (hdis : spans.Pairwise (fun a b => a.2 ≤ b.1)) :
+    ∃ f, featureOnView v minus spans = .ok f ∧
+      contigPositions v f = denoteContig spans minus (segStart v) (segStart v + len v) :=
+  featureOnView_contig_spec v h hl minus spans hsp hdis
+
+-- reversed view of parent positions [5, 10) at offset 5; feature (5,7),(8,9),(11,14): retained 5,6,8 -> hull 5..8
+example : (match featureOnView { start := -4, stop := -9, step := -1, offset := 5, seqLen := 8 } true [(5, 7), (8, 9), (11, 14)] with
+      | .ok f => contigPositions { start := -4, stop := -9, step := -1, offset := 5, seqLen := 8 } f
+                   == denoteContig [(5, 7), (8, 9), (11, 14)] true 5 10
+                 && (denoteContig [(5, 7), (8, 9), (11, 14)] true 5 10).1 == [8, 7, 6, 5]
+      | .error _ => false) = true := by
+  decide
+
+/-- **contiguous_feature_on_view.**  The same at the level of residues, on C01's well-formed Sequence wrapper:
+`feature.get_slice(allow_gaps=True)` returns exactly the parent residues at `denoteContig`, complemented iff the feature
+is on the minus strand (the residue-level companion of `feature_on_view` for the contiguous form). -/
+theorem contiguous_feature_on_view (comp : Char → Char) (hcomp : ∀ x, comp (comp x) = x) (s : Seq) (hw : WF s)
+    (hn : s.nucleic = true) (hu : UnitView s.v) (hl : 0 < len s.v) (minus : Bool) (spans : List (Int × Int))
+    (hsp : ∀ sp ∈ spans, 0 ≤ sp.1 ∧ sp.1 < sp.2) (hdis : spans.Pairwise (fun a b => a.2 ≤ b.1)) :
+    ∃ f, featureOnView s.v minus spans = .ok f ∧
+      getSliceContig comp s f =
+        (denoteContig spans minus (segStart s.v) (segStart s.v + len s.v)).1.map
+          (fun p => (if minus then comp else id) (s.parent[(p - s.v.offset).toNat]!)) :=
+  getSliceContig_spec comp hcomp s hw hn hu hl minus spans hsp hdis
+
+-- ACGTACGTACGTACGT[4:9], minus-strand feature (1,6),(7,12): retained 4,5 and 7,8 -> contiguous 4..8 = "ACGTA" read as rc = "TACGT"
+example :
+    let s : SeqWrap.Seq := { parent := "ACGTACGTACGTACGT".toList, v := { start := 4, stop := 9, step := 1, offset := 0, seqLen := 16 }, nucleic := true }
+    let comp : Char → Char := fun c => if c = 'A' then 'T' else if c = 'T' then 'A' else if c = 'C' then 'G' else if c = 'G' then 'C' else c
+    WF s ∧ UnitView s.v ∧
+    ((denoteContig [(1, 6), (7, 12)] true 4 9).1.map (fun p => comp (s.parent[(p - s.v.offset).toNat]!))) = "TACGT".toList := by
+  decide
+
+/-- The Feature `add_feature` RETURNS is the feature a later `get_features` on the same view builds from the record it
+wrote (the whole of `add_feature`, model `addFeature`; translated whole in Props/C04Gen.lean). -/
+theorem added_feature_returned_is_requeried (v : View) (h : UnitView v) (hl : 0 < len v) (hoff : 0 ≤ v.offset)
+    (minus : Bool) (spans : List (Int × Int)) (hs : ViewSpans (len v) spans) :
+    ∃ db dm f, addFeature v spans minus = .ok ((db, dm), f) ∧ featureOnView v dm db = .ok f ∧
+      sliceIdx f = spans.flatMap (fun sp => seg sp.1 sp.2) ∧ f.reversed = minus := by
+  obtain ⟨db, dm, f, h1, h2, h3, h4⟩ := addFeature_spec v h hl hoff minus spans hs
+  exact ⟨db, dm, f, h1, h2, by rw [sliceIdx_eq, h3], h4⟩
+
+example : addFeature { start := -5, stop := -13, step := -1, offset := 0, seqLen := 15 } [(1, 3), (5, 8)] false
+    = .ok (([(3, 6), (8, 10)], true), { spans := [.span 1 3, .span 5 8], reversed := false }) := by decide
+
 end CogentModel.C04
